@@ -471,6 +471,8 @@ def run(run, model):
     run.try_rule(c07.r07_5, model)
     run.rule("R04.19", "specialisation terminates (shared with C07 R07.12): polymorphic recursion must not make the compiler loop")
     run.try_rule(c07.r07_12, model)
+    run.rule("R04.21", "a generic instance mentioned only by a type definition does not reach the back end unspecialised (shared with C07 R07.15): it panics there")
+    run.try_rule(c07.r07_15, model)
     run.rule("R04.6", "no cyclic type can be built: shared with C03 R03.2 (occurs before binding; occurs handles every type former)")
     run.try_rule(c03.r03_2, model)
     run.try_rule(c07.r07_2, model, None, "C04")
